@@ -230,11 +230,13 @@ pub struct DynOpts {
     pub nonfinite: bool,
     pub wide_ints: bool,
     pub exotic_keys: bool,
+    /// float map keys (their spelling is sonic's own: only for route-vs-route comparisons)
+    pub float_keys: bool,
 }
 
 impl Default for DynOpts {
     fn default() -> Self {
-        DynOpts { max_depth: 4, bad_keys: false, nonfinite: true, wide_ints: true, exotic_keys: true }
+        DynOpts { max_depth: 4, bad_keys: false, nonfinite: true, wide_ints: true, exotic_keys: true, float_keys: false }
     }
 }
 
@@ -283,6 +285,9 @@ fn fix_nonfinite_f64(x: f64, allow: bool) -> f64 {
 pub fn gen_key(r: &mut Rng, o: &DynOpts) -> Key {
     if o.bad_keys && r.chance(1, 8) {
         return if r.chance(1, 2) { Key::BadSeq } else { Key::BadUnit };
+    }
+    if o.float_keys && r.chance(1, 12) {
+        return Key::F64(if r.chance(1, 2) { rand_f32(r) as f64 } else { rand_f64(r) });
     }
     if !o.exotic_keys || r.chance(2, 3) {
         return Key::Str(if r.chance(2, 3) { r.pick(KEY_POOL).to_string() } else { rand_text(r) });
@@ -459,7 +464,7 @@ pub fn key_text(k: &Key) -> Option<String> {
 
 impl Dyn {
     pub fn has_bad_key(&self) -> bool {
-        self.any(&|d| matches!(d, Dyn::Map(v) if v.iter().any(|(k, _)| matches!(k, Key::BadSeq | Key::BadUnit))))
+        self.any(&|d| matches!(d, Dyn::Map(v) if v.iter().any(|(k, _)| matches!(k, Key::BadSeq | Key::BadUnit) || matches!(k, Key::F64(f) if !f.is_finite()))))
     }
     pub fn any(&self, f: &dyn Fn(&Dyn) -> bool) -> bool {
         if f(self) {
